@@ -194,7 +194,7 @@ func doReadWith(g storage.Graph, r read, lo *storage.LookupOptions) string {
 // ---- operations ------------------------------------------------------------------
 
 type op struct {
-	Kind string `json:"kind"` // add remove sweep sweep-rev read
+	Kind string `json:"kind"` // add remove sweep sweep-rev read cancel
 	H    int    `json:"handle"`
 	T    int    `json:"triple,omitempty"`
 	R    int    `json:"read,omitempty"`
@@ -279,6 +279,15 @@ func (m *mstate) apply(o op) {
 			}
 		}
 		m.ev[o.H] = append(m.ev[o.H], event{o.R, m.content})
+	case "cancel":
+		// reads given up after their first result: whatever they leave behind is part of the state (an event of its
+		// own kind, recorded once per handle and content)
+		for _, e := range m.ev[o.H] {
+			if e.kind == -3 && e.content == m.content {
+				return
+			}
+		}
+		m.ev[o.H] = append(m.ev[o.H], event{-3, m.content})
 	}
 }
 
@@ -365,6 +374,28 @@ func (in *instance) exec(o op, opIdx int, out *[]mismatch, nreadsDone *int) erro
 			in.rawKnown[i] = false
 		}
 		return err
+	}
+	if o.Kind == "cancel" {
+		// every lookup of the grid under default options, given up after its first result: the consumer takes one
+		// element, cancels the context of the call and receives nothing more. The call must return, what it delivered
+		// must be a result of the wrapped graph, and (checked by the reads that follow) nothing of it may stay behind.
+		for ri, rd := range in.reads {
+			if rd.exist != nil || rd.oi != 0 {
+				continue
+			}
+			res := lookup.CallCancelled(in.h[o.H], rd.q, rd.o.Storage(), 1, 60*time.Second)
+			*nreadsDone++
+			want := in.rawAnswer(ri)
+			switch {
+			case res.Stalled:
+				*out = append(*out, mismatch{opIdx, ri, want, "[does-not-return] the call has not returned 60 s after its context was cancelled"})
+			case res.Panic != "":
+				*out = append(*out, mismatch{opIdx, ri, want, "[panic] " + res.Panic})
+			case len(res.Keys) == 1 && !strings.Contains(" | "+want+" | ", " | "+res.Keys[0]+" | "):
+				*out = append(*out, mismatch{opIdx, ri, want, "[cancelled after one result] " + res.Keys[0]})
+			}
+		}
+		return nil
 	}
 	for _, ri := range readsOf(o, len(in.reads)) {
 		got := doReadWith(in.h[o.H], in.reads[ri], &in.lo)
@@ -718,7 +749,7 @@ func main() {
 		}
 	}
 	for h := 0; h < 3; h++ {
-		alphabet = append(alphabet, op{Kind: "sweep", H: h}, op{Kind: "sweep-rev", H: h})
+		alphabet = append(alphabet, op{Kind: "sweep", H: h}, op{Kind: "sweep-rev", H: h}, op{Kind: "cancel", H: h})
 		for _, s := range singles {
 			alphabet = append(alphabet, op{Kind: "read", H: h, R: s})
 		}
